@@ -66,13 +66,14 @@ class ClassTable(object):
 
 class Ctl(object):
     """continuations of the enclosing constructs (immutable; shared between forked states)"""
-    __slots__ = ('ret', 'brk', 'cont', 'handler', 'depth', 'fname')
+    __slots__ = ('ret', 'brk', 'cont', 'handler', 'depth', 'fname', 'inl')
 
-    def __init__(self, ret=None, brk=None, cont=None, handler=None, depth=0, fname=''):
+    def __init__(self, ret=None, brk=None, cont=None, handler=None, depth=0, fname='', inl=None):
         self.ret, self.brk, self.cont, self.handler, self.depth, self.fname = ret, brk, cont, handler, depth, fname
+        self.inl = inl        # inlined callee frame: (spec, entry state of the callee, instance number, FuncInfo)
 
     def but(self, **kw):
-        c = Ctl(self.ret, self.brk, self.cont, self.handler, self.depth, self.fname)
+        c = Ctl(self.ret, self.brk, self.cont, self.handler, self.depth, self.fname, self.inl)
         for k, v in kw.items():
             setattr(c, k, v)
         return c
